@@ -119,6 +119,8 @@ class async_sender {
     ClientService& _svc;
     write_queue_t _write_queue;
     bool _write_in_progress { false };
+    const void* _write_stream { nullptr };
+    bool _resend_pending { false };
 
     static constexpr uint16_t MAX_LIMIT = 65535;
     uint16_t _limit { MAX_LIMIT };
@@ -180,8 +182,15 @@ public:
     }
 
     void resend() {
-        if (_write_in_progress)
+        if (_write_in_progress) {
+            // A write issued on the previous stream may still complete
+            // successfully (its data had been accepted before the stream
+            // was replaced); resending is then done once it has completed.
+            if (_write_stream != &_svc._stream.next_layer())
+                _resend_pending = true;
             return;
+        }
+        _resend_pending = false;
 
         // The _write_in_progress flag is set to true to prevent any write
         // operations executing before the _write_queue is filled with
@@ -235,9 +244,17 @@ public:
             return;
         }
 
+        // a reconnect happened while this write was in flight:
+        // replies parked by the previous connection are stale
+        if (_resend_pending)
+            _svc._replies.clear_fast_replies();
+
         // errors, if any, are propagated to ops
         for (auto& op : write_queue)
             op.complete(ec);
+
+        if (_resend_pending)
+            return resend();
 
         do_write();
     }
@@ -300,6 +317,7 @@ private:
 
         _svc._replies.clear_fast_replies();
 
+        _write_stream = &_svc._stream.next_layer();
         _svc._stream.async_write(
             buffers,
             asio::prepend(std::ref(*this), std::move(write_queue))
